@@ -21,6 +21,24 @@ fn run(cfg: &str, rt: &tokio::runtime::Runtime, out: &mut Vec<Failure>) {
     }
 }
 
+fn run_chain(cfg: &str, rt: &tokio::runtime::Runtime, out: &mut Vec<Failure>) {
+    let r = if cfg == "whatsapp_v1" {
+        rt.block_on(akd::vx_export::c09_chain_splice::<WhatsAppV1Configuration>())
+    } else {
+        rt.block_on(akd::vx_export::c09_chain_splice::<ExperimentalConfiguration<ExampleLabel>>())
+    };
+    if let Ok(true) = r {
+        out.push(Failure {
+            clause: "auditor/audit_verify#I_each".into(),
+            case: vec!["c09".into(), "chain".into(), cfg.into()],
+            input: format!("[{cfg}] hashes = [A@0, A@1, B@2] where A published {{a,b}},{{c}} and B published {{b}},{{c}}; proofs = [A's 0->1, B's 1->2]"),
+            expected: "audit_verify rejects (B's unchanged nodes do not hash to A@1: leaf a would vanish)".into(),
+            observed: "accepted".into(),
+            finding_id: None,
+        });
+    }
+}
+
 /// BOUNDED stand-in for the helper's contract (auditor/ensure_prefix_free#E_prefix_free): exhaustive over all sets of <= 3 labels
 /// of <= `bits` bits (each with and without stray bits beyond its length): accepted <==> pairwise no label is a prefix of another
 fn helper_exhaustive(bits: u32, out: &mut Vec<Failure>) -> u64 {
@@ -57,14 +75,14 @@ fn helper_exhaustive(bits: u32, out: &mut Vec<Failure>) -> u64 {
 
 pub fn search(_seed: u64, full: bool, rt: &tokio::runtime::Runtime) -> SearchResult {
     let mut out = vec![];
-    for cfg in ["whatsapp_v1", "experimental"] { run(cfg, rt, &mut out); }
+    for cfg in ["whatsapp_v1", "experimental"] { run(cfg, rt, &mut out); run_chain(cfg, rt, &mut out); }
     let bits = if full { 4 } else { 3 };
     let n = helper_exhaustive(bits, &mut out);
-    SearchResult { evaluations: 2 + n, failures: out, summary: format!("overlapping node set (subtree root + new leaf below it) with a server-chosen end hash, both configurations; BOUNDED helper check: all sets of <= 3 labels of <= {bits} bits (with/without stray bits): ensure_prefix_free accepts <==> prefix-free") }
+    SearchResult { evaluations: 4 + n, failures: out, summary: format!("a two-transition audit whose second proof comes from a different tree; overlapping node set (subtree root + new leaf below it) with a server-chosen end hash, both configurations; BOUNDED helper check: all sets of <= 3 labels of <= {bits} bits (with/without stray bits): ensure_prefix_free accepts <==> prefix-free") }
 }
 
 pub fn replay(case: &[&str], rt: &tokio::runtime::Runtime) -> (bool, String) {
     let mut out = vec![];
-    if case[0] == "helper" { helper_exhaustive(3, &mut out); } else { run(case[0], rt, &mut out); }
+    if case[0] == "helper" { helper_exhaustive(3, &mut out); } else if case[0] == "chain" { run_chain(case[1], rt, &mut out); } else { run(case[0], rt, &mut out); }
     match out.first() { Some(f) => (true, format!("{}: expected {}, observed {}", f.input, f.expected, f.observed)), None => (false, "holds".into()) }
 }
